@@ -364,7 +364,8 @@ fn gen_regs(rng: &mut Rng, cfg: &GenCfg, k: &Knobs, resmap: &[RKey], budget: &mu
     let mut regs = Vec::new();
     let mut names: Vec<String> = Vec::new();
     let mut named_since_start: Vec<String> = Vec::new();
-    let n_here = if inner { 1 + rng.below(5) as usize } else { *budget };
+    // now and then a builder holds no ordinary system at all (only thread-local ones / barriers)
+    let n_here = if rng.chance(1, 25) { 0 } else if inner { 1 + rng.below(5) as usize } else { *budget };
     let mut placed = 0;
     if cfg.allow_barrier && rng.chance(k.barrier_p / 3 + 1, 100) {
         regs.push(Reg::Barrier); // leading barrier
@@ -450,7 +451,7 @@ fn gen_regs(rng: &mut Rng, cfg: &GenCfg, k: &Knobs, resmap: &[RKey], budget: &mu
         *budget -= 1;
         placed += 1;
     }
-    if cfg.allow_tl && rng.chance(k.tl_p, 100) {
+    if cfg.allow_tl && (rng.chance(k.tl_p, 100) || (n_here == 0 && rng.chance(2, 3))) {
         let ntl = 1 + rng.below(3) as usize;
         for _ in 0..ntl {
             let (r, w) = if inner { (vec![], vec![]) } else { gen_access(rng, k) };
